@@ -214,6 +214,60 @@ func c09ArithCases(r *vlib.Run) []c09Case {
 	return out
 }
 
+// ------------------------------------------------------------------ footprint helpers (input enumeration)
+
+// c09Helper: CalcLookupItemfootprint / CalcStorageItemfootprint against the statement's formula
+// (2 items and 81+z octets; 1 item and 34+|k|+|v| octets) as exact integers, with z at 0, 1, small
+// and at the 32-bit edge.
+func c09Helper(r *vlib.Run, c c09Case) {
+	r.Eval()
+	r.Transition()
+	switch c.Fn {
+	case "lookup-footprint":
+		z := c.Items
+		var it types.U32
+		var oc types.U64
+		p, msg, _ := vlib.Guard(func() {
+			it, oc = service_account.CalcLookupItemfootprint(types.LookupMetaMapkey{Length: types.U32(z)})
+		})
+		want := big.NewInt(81 + int64(z))
+		edge := "small"
+		if uint64(z)+81 >= 1<<32 {
+			edge = "81+z>=2^32"
+		}
+		okv := !p && it == 2 && hcBig(uint64(oc)).Cmp(want) == 0
+		r.Class(fmt.Sprintf("helper lookup %s ok=%v", edge, okv))
+		if p {
+			r.Violation("service_account.CalcLookupItemfootprint", "go-panic", edge, msg, c)
+		} else if !okv {
+			r.Violation("service_account.CalcLookupItemfootprint", "wrong-value", edge, fmt.Sprintf("z=%d: (items, octets) = (%d, %d), statement: (2, %s)", z, it, oc, want), c)
+		}
+	case "storage-footprint":
+		k := string(make([]byte, c.Items))
+		v := make([]byte, c.Octets)
+		it, oc := service_account.CalcStorageItemfootprint(k, v)
+		want := big.NewInt(34 + int64(c.Items) + int64(c.Octets))
+		okv := it == 1 && hcBig(uint64(oc)).Cmp(want) == 0
+		r.Class(fmt.Sprintf("helper storage ok=%v", okv))
+		if !okv {
+			r.Violation("service_account.CalcStorageItemfootprint", "wrong-value", "small", fmt.Sprintf("|k|=%d |v|=%d: (items, octets) = (%d, %d), statement: (1, %s)", c.Items, c.Octets, it, oc, want), c)
+		}
+	}
+}
+
+func c09HelperCases() []c09Case {
+	var out []c09Case
+	for _, z := range []uint32{0, 1, 5, 80, 81, 1<<31 - 1, 1 << 31, 1<<32 - 83, 1<<32 - 82, 1<<32 - 81, 1<<32 - 80, 1<<32 - 2, 1<<32 - 1} {
+		out = append(out, c09Case{Part: "helper", Fn: "lookup-footprint", Items: z})
+	}
+	for _, kl := range []uint32{0, 1, 32, 4096} {
+		for _, vl := range []uint64{0, 1, 40, 65536} {
+			out = append(out, c09Case{Part: "helper", Fn: "storage-footprint", Items: kl, Octets: vl})
+		}
+	}
+	return out
+}
+
 // ------------------------------------------------------------------ bfs part
 
 const (
@@ -228,8 +282,8 @@ var (
 	c09K      = [][]byte{[]byte("a"), []byte("kkkk")}
 	c09V      = [][]byte{nil, {0x55}, make([]byte, 40)}
 	c09H      = []types.OpaqueHash{hcHash([]byte("c09-h1")), hcHash([]byte("c09-h2"))}
-	c09Z      = []uint32{0, 5}
-	c09NewLen = []uint64{0, 5}
+	c09Z      = []uint32{0, 5, 1<<32 - 81, 1<<32 - 1} // the last two: 32-bit edge of 81+z (hash h1 only)
+	c09NewLen = []uint64{0, 5, 1<<32 - 81, 1<<32 - 1}
 )
 
 // memory layout inside the RW page
@@ -258,11 +312,17 @@ func c09Events() []c09Event {
 	}
 	for h := range c09H {
 		for z := range c09Z {
+			if z >= 2 && h == 0 {
+				continue
+			}
 			ev = append(ev, c09Event{SolicitOp, fmt.Sprintf("solicit(h%d,z=%d)", h, c09Z[z]), h, z})
 		}
 	}
 	for h := range c09H {
 		for z := range c09Z {
+			if z >= 2 && h == 0 {
+				continue
+			}
 			ev = append(ev, c09Event{ForgetOp, fmt.Sprintf("forget(h%d,z=%d)", h, c09Z[z]), h, z})
 		}
 	}
@@ -285,9 +345,16 @@ var c09RegMargins = []uint64{201, 250, 302, 100000}
 
 var c09NewIndex = []uint64{0, 50, 200}
 
-func c09NWorlds() int { return len(c09Margins)*2 + len(c09RegMargins) }
+// one more world, parsed entries, margin 2^34: rich enough to pay for lookup / code lengths at the
+// 32-bit edge (81+z = 2^32 octets)
+const c09EdgeMargin = uint64(1) << 34
+
+func c09NWorlds() int { return len(c09Margins)*2 + len(c09RegMargins) + 1 }
 
 func c09WorldName(world int) string {
+	if world == 2*len(c09Margins)+len(c09RegMargins) {
+		return "edge-rich,margin=2^34"
+	}
 	if world >= 2*len(c09Margins) {
 		return fmt.Sprintf("registrar,margin=%d", c09RegMargins[world-2*len(c09Margins)])
 	}
@@ -305,7 +372,10 @@ func c09Build(world int) *c09World {
 	registrar := world >= 2*len(c09Margins)
 	var margin uint64
 	rawVariant := false
-	if registrar {
+	if world == 2*len(c09Margins)+len(c09RegMargins) {
+		registrar = false
+		margin = c09EdgeMargin
+	} else if registrar {
 		margin = c09RegMargins[world-2*len(c09Margins)]
 	} else {
 		margin = c09Margins[world%len(c09Margins)]
@@ -460,7 +530,9 @@ func c09Step(r *vlib.Run, evs []c09Event, world int, hist []int, check bool) str
 			res = "ok"
 		}
 		wk := "parsed"
-		if world >= 2*len(c09Margins) {
+		if world == 2*len(c09Margins)+len(c09RegMargins) {
+			wk = "edge-rich"
+		} else if world >= 2*len(c09Margins) {
 			wk = "registrar"
 		} else if world >= len(c09Margins) {
 			wk = "raw"
@@ -544,6 +616,8 @@ func TestVerif_C09(t *testing.T) {
 	if r.IsReplay(&rc) {
 		if rc.Part == "arith" {
 			c09Arith(r, rc)
+		} else if rc.Part == "helper" {
+			c09Helper(r, rc)
 		} else {
 			c09Step(r, evs, rc.World, rc.Hist, true)
 		}
@@ -561,6 +635,14 @@ func TestVerif_C09(t *testing.T) {
 		if r.WantSample() && i%997 == 5 {
 			r.Sample(c)
 		}
+	}
+
+	for i, c := range c09HelperCases() {
+		if !r.Mine(uint64(1<<44) + uint64(i)) {
+			continue
+		}
+		r.Space(1)
+		c09Helper(r, c)
 	}
 
 	// part 2: bfs. Work unit = (world, first event); dedup inside the unit on the full context.
